@@ -145,7 +145,9 @@ func Split(v interface{}) interface{} {
 				}
 				continue
 			}
-			named[k] = Split(e)
+			if se := Split(e); se != nil {
+				named[k] = se
+			}
 		}
 		var list []interface{}
 		for i := 0; i <= max; i++ {
